@@ -99,6 +99,10 @@ func requestCases(rng *lib.Rand, thorough bool) []jcase {
 		req(11, eUnk, "POST raw unaligned offset", "POST", "/lm/raw/0_1_2/16_16_16/3_16_0", vol),
 		req(11, eUnk, "POST raw huge size, tiny body", "POST", "/lm/raw/0_1_2/1600_1600_1600/0_0_0", vol[:64]),
 		req(11, eUnk, "POST raw negative size", "POST", "/lm/raw/0_1_2/-16_16_16/0_0_0", vol),
+		req(11, eUnk, "POST raw lz4, huge size, tiny body", "POST", "/lm/raw/0_1_2/1600_1600_1600/0_0_0?compression=lz4", vol[:64]),
+		req(11, eUnk, "POST raw gzip, huge size, tiny body", "POST", "/lm/raw/0_1_2/1600_1600_1600/0_0_0?compression=gzip", vol[:64]),
+		req(11, eUnk, "POST raw lz4, overflowing size", "POST", "/lm/raw/0_1_2/320_107367629_536903681/0_0_0?compression=lz4", vol[:64]),
+		req(11, eUnk, "POST raw unknown compression", "POST", "/lm/raw/0_1_2/16_16_16/16_16_0?compression=bogus", vol),
 		req(11, eWell, "GET raw of one absent block", "GET", "/lm/raw/0_1_2/16_16_16/160_160_160", nil),
 		req(11, eWell, "GET raw of two absent blocks", "GET", "/lm/raw/0_1_2/32_16_16/160_160_160", nil),
 	)
@@ -288,7 +292,7 @@ func requestCases(rng *lib.Rand, thorough bool) []jcase {
 		req(10, eUnk, "sizes non-JSON", "GET", "/lm/sizes", []byte(`[1,`)),
 		req(10, eUnk, "specificblocks on a repaired server", "GET", "/lm/specificblocks?blocks=0,0,0,3,0,0", nil),
 	)
-	return cs
+	return withResourceOptions(cs, thorough)
 }
 
 // POST elements confined to one annotation block each: stored elements, then the post.
@@ -427,6 +431,234 @@ func geometryCases(rng *lib.Rand, thorough bool) []jcase {
 		add("annotation move to extreme point", "POST", "/ann/move/1_1_1/"+pt, nil)
 		add("roi ptquery extreme", "POST", "/roi/ptquery", []byte("[["+strings.ReplaceAll(pt, "_", ",")+"]]"))
 		add("labelmap labels extreme", "GET", "/lm/labels", []byte("[["+strings.ReplaceAll(pt, "_", ",")+"]]"))
+	}
+	return cs
+}
+
+// withResourceOptions: every request that is not well-formed is issued a second time with the
+// options that make a handler take a server-wide resource before it looks at the payload
+// (throttle=on|true takes the global throttle slot, max 1 by default), so that an error path
+// that forgets to hand the resource back shows: after every request the driver issues a
+// well-formed throttled request that must not be refused (503).  Well-formed throttled
+// requests on every datatype that reads the option end each family.
+func withResourceOptions(cs []jcase, thorough bool) []jcase {
+	opts := []string{"throttle=on", "throttle=true", "throttle=on&interactive=true", "throttle=true&compression=lz4", "throttle=on&compression=bogus&interactive=false"}
+	var out []jcase
+	n := 0
+	lastFam := -1
+	flush := func(fam int) {
+		if fam < 0 {
+			return
+		}
+		for _, u := range []string{"/lm/blocks/16_16_16/0_0_0?throttle=on", "/lm/raw/0_1_2/16_16_16/0_0_0?throttle=true", "/lm/index/20?throttle=on",
+			"/img/raw/0_1_2/16_16_16/0_0_0?throttle=on", "/img/subvolblocks/16_16_16/0_0_0?throttle=true", "/kv/mutations?throttle=on"} {
+			out = append(out, req(12, eWell, "well-formed throttled request after the "+famNames[fam]+" family", "GET", u, nil))
+		}
+	}
+	for _, c := range cs {
+		if c.Fam != lastFam {
+			flush(lastFam)
+			lastFam = c.Fam
+		}
+		out = append(out, c)
+		if c.Expect == eWell {
+			continue
+		}
+		n++
+		if c.Fam == 10 && !thorough && n%3 != 0 {
+			continue // hostile URLs: a third of them in the quick tier
+		}
+		t := c
+		m := *c.Main
+		sep := "?"
+		if strings.Contains(m.URL, "?") {
+			sep = "&"
+		}
+		m.URL += sep + opts[n%len(opts)]
+		t.Main = &m
+		t.Name = c.Name + " [" + opts[n%len(opts)] + "]"
+		out = append(out, t)
+	}
+	flush(lastFam)
+	return out
+}
+
+// ---- conforming multi-step histories on annotation instances ----
+
+type annElem struct {
+	pos  [3]int32
+	kind string
+	tags []string
+	rels []rel
+}
+
+func (e annElem) wire() elem {
+	return elem{Pos: e.pos, Kind: e.kind, Tags: e.tags, Rels: e.rels}
+}
+
+// annotationHistories: sequences of conforming requests (every one must not be answered 5xx):
+// posts that add elements and re-post several stored ones with tags and relationships removed
+// or changed in one request, deletions, moves, and the reads of every view in between.  One
+// history per region, on a plain annotation instance and on one synced with a labelmap.
+func annotationHistories(rng *lib.Rand, thorough bool) []jcase {
+	var cs []jcase
+	nPlain, nSynced, nSteps := 8, 5, 9
+	if thorough {
+		nPlain, nSynced, nSteps = 60, 30, 14
+	}
+	hist := 0
+	history := func(inst string, place func(i int) [3]int32, region string, scripted [][]int) {
+		hist++
+		tagName := func(t int) string { return fmt.Sprintf("H%d_%d", hist, t) }
+		stored := map[int]*annElem{} // index of position -> element
+		nextPos := 0
+		var steps []step
+		emit := func(name string, st step) {
+			c := req(6, eWell, fmt.Sprintf("annotation history %d (%s): %s", hist, inst, name), st.Method, st.URL, st.Body)
+			c.Pre = append([]step{}, steps...)
+			c.preDone = true
+			cs = append(cs, c)
+			steps = append(steps, st)
+		}
+		storedIdx := func() []int {
+			var l []int
+			for i := 0; i < nextPos; i++ {
+				if stored[i] != nil {
+					l = append(l, i)
+				}
+			}
+			return l
+		}
+		post := func(idxs []int, tagsOf func(i int) []int) {
+			var es []elem
+			inPost := map[int]bool{}
+			for _, i := range idxs {
+				inPost[i] = true
+			}
+			for _, i := range idxs {
+				e := &annElem{pos: place(i), kind: []string{"Note", "PostSyn", "PreSyn", "Gap"}[i%4]}
+				for _, t := range tagsOf(i) {
+					e.tags = append(e.tags, tagName(t))
+				}
+				// relationships only to elements that exist (stored or in this post), never to itself
+				for _, j := range append(storedIdx(), idxs...) {
+					if j != i && len(e.rels) < 2 && rng.Chance(0.3) && (stored[j] != nil || inPost[j]) {
+						dup := false
+						for _, r := range e.rels {
+							if r.To == place(j) {
+								dup = true
+							}
+						}
+						if !dup {
+							e.rels = append(e.rels, rel{Rel: []string{"GroupedWith", "PostSynTo", "PreSynTo", "ConvergentTo"}[j%4], To: place(j)})
+						}
+					}
+				}
+				stored[i] = e
+				es = append(es, e.wire())
+			}
+			emit(fmt.Sprintf("post %d elements", len(es)), step{"POST", "/" + inst + "/elements", elemsJSON(es...)})
+		}
+		randTags := func(int) []int {
+			var ts []int
+			for t := 1; t <= 3; t++ {
+				if rng.Chance(0.5) {
+					ts = append(ts, t)
+				}
+			}
+			return ts
+		}
+		reads := func() {
+			emit("read tag 1", step{"GET", "/" + inst + "/tag/" + tagName(1), nil})
+			emit("read region", step{"GET", "/" + inst + "/elements/" + region, nil})
+			emit("read blocks", step{"GET", "/" + inst + "/blocks/" + region, nil})
+		}
+		if scripted != nil {
+			// scripted[0]: positions posted first, all with tag 1; scripted[1..]: positions re-posted without tags
+			post(scripted[0], func(int) []int { return []int{1} })
+			nextPos = len(scripted[0])
+			for _, again := range scripted[1:] {
+				post(again, func(int) []int { return nil })
+				reads()
+			}
+			return
+		}
+		for s := 0; s < nSteps; s++ {
+			have := storedIdx()
+			switch k := rng.Intn(10); {
+			case k < 3 || len(have) == 0: // add new elements (and maybe re-post stored ones with other tags)
+				var idxs []int
+				for j := 0; j < 1+rng.Intn(3); j++ {
+					idxs = append(idxs, nextPos)
+					nextPos++
+				}
+				for _, i := range have {
+					if rng.Chance(0.3) {
+						idxs = append(idxs, i)
+					}
+				}
+				post(idxs, randTags)
+			case k < 6: // re-post several stored elements with tags (and relationships) removed or changed
+				var idxs []int
+				for _, i := range have {
+					if rng.Chance(0.7) {
+						idxs = append(idxs, i)
+					}
+				}
+				if len(idxs) == 0 {
+					idxs = have
+				}
+				drop := rng.Intn(4) // 0: drop all tags
+				post(idxs, func(i int) []int {
+					var ts []int
+					for t := 1; t <= 3; t++ {
+						if t != drop && drop != 0 && rng.Chance(0.8) {
+							ts = append(ts, t)
+						}
+					}
+					return ts
+				})
+			case k < 8: // delete
+				i := have[rng.Intn(len(have))]
+				p := stored[i].pos
+				stored[i] = nil
+				emit("delete element", step{"DELETE", fmt.Sprintf("/%s/element/%d_%d_%d", inst, p[0], p[1], p[2]), nil})
+			default: // move to a position never used before
+				i := have[rng.Intn(len(have))]
+				from, to := stored[i].pos, place(nextPos)
+				stored[nextPos] = stored[i]
+				stored[nextPos].pos = to
+				stored[i] = nil
+				nextPos++
+				emit("move element", step{"POST", fmt.Sprintf("/%s/move/%d_%d_%d/%d_%d_%d", inst, from[0], from[1], from[2], to[0], to[1], to[2]), nil})
+			}
+			if s%3 == 2 {
+				reads()
+			}
+		}
+		reads()
+	}
+	// plain instance: each history in its own slab of z, spread over three blocks in x
+	plain := func(h int) func(i int) [3]int32 {
+		return func(i int) [3]int32 { return [3]int32{int32(1 + (i%3)*64 + i/3), 1, int32(64*(100+h) + 1)} }
+	}
+	// synced instance: inside the labelled block (0,0,0) of lm2 (16^3 voxels)
+	synced := func(h int) func(i int) [3]int32 {
+		// 32 positions per history: two rows of y, the row pair and z chosen by the history number
+		return func(i int) [3]int32 { return [3]int32{int32(i % 16), int32((i/16)%2 + 2*(h%8)), int32((h / 8) % 16)} }
+	}
+	// corpus: k elements share a tag; several of them, among them the last of the tag's list, lose it in one post
+	plainRegion := func(h int) string { return fmt.Sprintf("256_64_64/0_0_%d", 64*(100+h)) }
+	syncedRegion := "16_16_16/0_0_0"
+	for _, sc := range [][][]int{{{0, 1, 2}, {0, 2}}, {{0, 1, 2}, {0, 1, 2}}, {{0, 1, 2, 3, 4}, {1, 4}, {0, 3}}, {{0, 1, 2, 3}, {3, 2, 0}}} {
+		history("ann", plain(hist+1), plainRegion(hist+1), sc)
+		history("anns", synced(hist+1), syncedRegion, sc)
+	}
+	for h := 0; h < nPlain; h++ {
+		history("ann", plain(hist+1), plainRegion(hist+1), nil)
+	}
+	for h := 0; h < nSynced; h++ {
+		history("anns", synced(hist+1), syncedRegion, nil)
 	}
 	return cs
 }
